@@ -58,7 +58,9 @@ def showEv : Ev → String
   | .enter a i => s!"n{a}.{i}"
   | .entered a i => s!"N{a}.{i}"
   | .exit a i => s!"x{a}.{i}"
+  | .exitEnd a i => s!"X{a}.{i}"
   | .sig s id => s!"{showSig s}{id}"
+  | .sigEnd s id => s!"{(showSig s).toUpper}{id}"
 
 def showOrigin : Origin → String
   | .enter a i => s!"n{a}.{i}"
